@@ -87,6 +87,32 @@ def _(v):
     v.prove_identity("uniform_dict_value", un["y"].mag * s1, b * s2)
 
 
+@harness("C09", "to_unitless.scaled_dimensionless_target", functions=[U + ":to_unitless", U + ":is_unitless", U + ":rescale", U + ":unit_of", U + ":magnitude"], div_mode="assume", samples=0)
+def _(v):
+    """a target unit that is dimensionless but not 1 (percent, ppm, degree...; here: dimension zero, ANY scale): plain numbers, lists and plain
+    numpy arrays are all expressed in it (value / scale), element-wise the same"""
+    import numpy as np
+    from chempy import units as CU
+    t = _table(v)
+    pc = t.generic("pc", (0, 0, 0, 0, 0, 0, 0))
+    s = t.scale["pc"]
+    m = v.real("m", lo=-1e6, hi=1e6)
+    v.prove_identity("plain_number", v.call(CU.to_unitless, m, pc) * s, m)
+    r = v.call(CU.to_unitless, [m, 2.5], pc)
+    v.prove("list_length", len(r) == 2)
+    v.prove_identity("list_0", r[0] * s, m)
+    v.prove_identity("list_1", r[1] * s, 2.5)
+    arr = np.array([0.5, 2.0, -3.0])
+    r = v.call(CU.to_unitless, arr, pc)
+    v.prove("plain_array_length", len(r) == 3)
+    for i, x in enumerate([0.5, 2.0, -3.0]):
+        v.prove_identity("plain_array_%d" % i, r[i] * s, x)
+    r1 = v.call(CU.to_unitless, arr, 1)
+    v.prove("plain_array_to_one_unchanged", [float(x) for x in r1] == [0.5, 2.0, -3.0])
+    q = v.call(CU.to_unitless, m * pc)
+    v.prove_identity("quantity_in_it_to_plain_number", q, m * s)
+
+
 @harness("C09", "is_unitless", functions=[U + ":is_unitless"], div_mode="assume", samples=0)
 def _(v):
     from chempy import units as CU
@@ -185,6 +211,9 @@ def _(v):
     v.prove("per100eV", close(tu(1 * u.per100eV, u.mol / u.joule), 1 / (100 * 1.602176634e-19 * 6.02214076e23)) or abs(tu(1 * u.per100eV, u.mol / u.joule) / 1.0364e-7 - 1) < 1e-3)
     v.prove("umol_per_J", close(tu(1 * u.umol_per_J, u.mol / u.joule), 1e-6))
     v.prove("centipoise", close(tu(1 * u.centipoise, u.pascal * u.second), 1e-3))
+    import numpy as np
+    v.prove("percent_is_a_scaled_dimensionless_unit", close(tu(1 * u.percent), 0.01) and close(tu(0.5, u.percent), 50.0)
+            and [float(x) for x in tu(np.array([0.5, 1.0]), u.percent)] == [float(x) for x in tu([0.5, 1.0], u.percent)] == [50.0, 100.0])
     v.prove("SI_base_registry", [tu(SI_base_registry[k], getattr(u, n)) for k, n in zip(DIMS, ("metre", "kilogram", "second", "ampere", "kelvin", "candela", "mole"))] == [1.0] * 7)
 
 
@@ -221,6 +250,8 @@ def _(v):
         ok = True
     v.prove("adding_plain_number_to_dimensional_raises", ok)
     v.prove("comparison_rescales", bool(1.0 * u.m > 50 * u.cm))
+    v.prove("comparison_with_a_bare_number_uses_the_magnitude_only", bool(3.0 * u.m == 3) and bool(u.percent == 1) and not bool(u.percent == 0.01) and bool(2.0 * u.km > 1.5)
+            and bool(3.0 * u.m != 4) and not bool(3.0 * u.m == 3 * u.s))
     v.prove("same_symbols_cancel", (1.0 * u.K / u.K).dimensionality.string == "dimensionless")
     v.prove("power_scales_exponents", ((2.0 * u.m) ** 3).dimensionality.string == "m**3" and float((2.0 * u.m) ** 3) == 8.0)
     try:
